@@ -313,9 +313,83 @@ def insertF (o : OStream) (fprec : Nat) (neg : Bool) (limbs : List Nat) (fexp : 
   let (p, o) := paramsFromIos o
   if p.base = 10 then some (o.write (cstr (callsBytes (doprntMpf p fprec neg limbs fexp)))) else none
 
-/-! ## what a reader of the manual expects (used by the theorems) -/
+/-! ## what a reader of the manual expects (specification side of the theorems) -/
 
 /-- value of a digit string in base `b` -/
 def digitsVal (b : Nat) (ds : List Char) : Nat := ds.foldl (fun a c => a * b + Scanf.digitValue c) 0
+
+/-- the base `basefield` selects: exactly one of dec / hex / oct, else `none` = detect it from a 0 / 0x / 0X prefix -/
+def Fmt.base? (f : Fmt) : Option Nat :=
+  if f.dec ∧ ¬ f.oct ∧ ¬ f.hex then some 10
+  else if f.hex ∧ ¬ f.dec ∧ ¬ f.oct then some 16
+  else if f.oct ∧ ¬ f.dec ∧ ¬ f.hex then some 8
+  else none
+
+/-- a good stream positioned after `d` (reversed) with `r` still to come -/
+def mkG (r d : List Char) (f : Fmt) : IStream := { rest := r, done := d, fmt := f }
+
+/-- outcome of reading one number: characters that stay consumed, what was stored, eofbit, failbit -/
+structure NumSpec where
+  n : Nat
+  val : Val
+  eof : Bool
+  fail : Bool
+  deriving Repr, DecidableEq
+
+/-- the stream that has consumed the first `n` characters of `u` (after `d`), with the given state bits -/
+def after (f : Fmt) (d u : List Char) (n : Nat) (eof fail : Bool) : IStream :=
+  { rest := u.drop n, done := (u.take n).reverse ++ d, eof := eof, fail := fail, bad := false, fmt := f }
+
+/-- the digits of a number in base `b` at the front of `t`, after `pre` characters of sign and prefix:
+    the longest run of base-`b` digits is consumed; no digit = failure (eofbit too if the input ended there),
+    unless the prefix was the single "0" of an auto-detected octal number, which then counts as the value 0 -/
+def digitsPart (b : Nat) (neg : Bool) (pre : Nat) (zero : Bool) (t : List Char) : NumSpec :=
+  let ds := t.takeWhile (digitTest b)
+  if ds ≠ [] then ⟨pre + ds.length, .value (if neg then -(digitsVal b ds : Int) else digitsVal b ds), false, false⟩
+  else if zero then ⟨pre, .value 0, false, false⟩
+  else ⟨pre, .unchanged, t.isEmpty, true⟩
+
+/-- the grammar of one integer after its sign (`k` characters): digits in the base of basefield, or, without a (single)
+    basefield bit, (0x|0X) hex digits, 0 octal digits, decimal digits -/
+def bodySpec (f : Fmt) (neg : Bool) (k : Nat) (u1 : List Char) : NumSpec :=
+  match f.base? with
+  | some b => digitsPart b neg k false u1
+  | none =>
+    match u1 with
+    | '0' :: 'x' :: t => digitsPart 16 neg (k + 2) false t
+    | '0' :: 'X' :: t => digitsPart 16 neg (k + 2) false t
+    | '0' :: t => digitsPart 8 neg (k + 1) true t
+    | _ => digitsPart 10 neg k false u1
+
+/-- the grammar of one integer as `operator>>` reads it from the text `u` (no white space): [+-] then `bodySpec` -/
+def numSpec (f : Fmt) (u : List Char) : NumSpec :=
+  match u with
+  | '-' :: t => bodySpec f true 1 t
+  | '+' :: t => bodySpec f false 1 t
+  | _ => bodySpec f false 0 u
+
+/-- leading white space skipped by `operator>>` -/
+def wsPrefix (f : Fmt) (t : List Char) : List Char := if f.skipws then t.takeWhile isspace else []
+
+/-- `operator>> (istream, mpz)` on the text `t`, as a specification: white space (if skipws), then `numSpec` -/
+def specZ (f : Fmt) (t : List Char) : IStream × Val :=
+  let w := wsPrefix f t
+  let u := t.drop w.length
+  let r := numSpec f u
+  (after f w.reverse u r.n r.eof r.fail, r.val)
+
+/-- `operator>> (istream, mpq)` as a specification: numerator as `specZ`; on success a directly following '/' and a
+    denominator read by `numSpec` (own sign, own base detection, no white space); without '/' the denominator is 1 -/
+def specQ (f : Fmt) (t : List Char) : IStream × Val × Val :=
+  let w := wsPrefix f t
+  let u := t.drop w.length
+  let r := numSpec f u
+  if r.fail then (after f w.reverse u r.n r.eof r.fail, r.val, .unchanged)
+  else
+    match u.drop r.n with
+    | '/' :: v =>
+      let r2 := numSpec f v
+      (after f ('/' :: ((u.take r.n).reverse ++ w.reverse)) v r2.n r2.eof r2.fail, r.val, r2.val)
+    | _ => (after f w.reverse u r.n false false, r.val, .value 1)
 
 end Mpir.CxxIo
